@@ -90,6 +90,21 @@ def gen_table(rng, max_n=40, nsids=None, axes_p=(0.65, 0.5), index_kinds=None, n
         tbl["index"]["perm"] = perm
     if kind == "offset":
         tbl["index"]["start"] = rng.pick((1, 7, 100))
+    if rng.chance(0.2):
+        # other column dtypes (integers cannot hold NaN: only columns without missing values)
+        dt = {}
+        for sid, vals in tbl["cols"].items():
+            choice = rng.pick(("float32", "int32", "float64"))
+            if choice == "int32":
+                if any(v is None for v in vals):
+                    continue
+                tbl["cols"][sid] = [float(int(v)) for v in vals]
+            if choice != "float64":
+                dt[sid] = choice
+        if dt:
+            tbl["dtypes"] = dt
+    if rng.chance(0.2):
+        tbl["readonly"] = True
     if no_time_p and rng.chance(no_time_p):
         tbl["no_time"] = True
         if tbl["index"]["kind"] == "datetime":
